@@ -62,23 +62,24 @@ type gen struct {
 	label int
 	b     strings.Builder
 	// struct
-	fields []variable
-	arrays []array
-	tables []array
-	pures  []string // private pure helpers: p0(a: base.u32) base.u32
-	helps  []string // private impure helpers: h0!(a: base.u32)
-	coros  []string // private coroutines: c0?(src: base.io_reader)
-	coroArg []bool  // whether coroutine i takes the extra "w: base.u32" argument
+	fields  []variable
+	arrays  []array
+	tables  []array
+	pures   []string // private pure helpers: p0(a: base.u32) base.u32
+	helps   []string // private impure helpers: h0!(a: base.u32)
+	coros   []string // private coroutines: c0?(src: base.io_reader)
+	coroArg []bool   // whether coroutine i takes the extra "w: base.u32" argument
 	// current function
 	locals   []variable
 	args     []variable
 	impure   bool
 	coro     bool
 	hasDst   bool
-	retZero  string // "return 0" / "return nothing": an early exit usable inside io_bind blocks ("" = none)
+	retZero  string          // "return 0" / "return nothing": an early exit usable inside io_bind blocks ("" = none)
 	loopVars map[string]bool // counted-loop indexes must not be assigned
 	nlocal   int
 	depth    int
+	inIter   bool // inside an iterate body: no suspension points, no nested iterate
 }
 
 func (g *gen) draw(lo, hi int, what string) int {
@@ -528,6 +529,8 @@ func (g *gen) stmt(budget int) {
 		}
 	case (kind == 21 || kind == 22) && g.impure && !g.coro && g.retZero != "" && g.depth == 1:
 		g.ioBindStmt()
+	case kind == 18 && g.impure && !g.coro && !g.inIter && len(g.byteArrays()) > 0: // iterate loop over a byte array
+		g.iterateStmt()
 	case kind == 17 && budget > 0 && len(g.arrays) > 0: // loop whose condition indexes with a variable the body changes
 		g.indexedWhile()
 	case kind == 14 && g.impure && len(g.helps) > 0:
@@ -543,7 +546,7 @@ func (g *gen) stmt(budget int) {
 			}
 		}
 	default:
-		if g.coro {
+		if g.coro && !g.inIter {
 			g.ioStmt()
 		} else if len(as) > 0 {
 			v := as[g.draw(0, len(as)-1, "lhs")]
@@ -634,6 +637,106 @@ func (g *gen) countedLoop(budget int) {
 	delete(g.loopVars, idx.name)
 	g.depth--
 	g.line("}")
+}
+
+// byteArrays are the struct's arrays of unrefined base.u8, which can be viewed as "slice base.u8".
+func (g *gen) byteArrays() []array {
+	var out []array
+	for _, ar := range g.arrays {
+		if ar.width == 8 && ar.emax.Cmp(typeMax(8)) == 0 && strings.HasPrefix(ar.name, "this.a") {
+			out = append(out, ar)
+		}
+	}
+	return out
+}
+
+// iterateStmt emits an iterate loop (doc/note/iterate-loops.md) over one or two
+// byte arrays of the struct: windows of a constant length, read and written
+// with constant indexes (in bounds only because of the window's length fact),
+// an advance that may be smaller than the length (overlapping windows), an
+// unroll count, and optionally an else clause for the remainder.
+func (g *gen) iterateStmt() {
+	bytes := g.byteArrays()
+	a0 := bytes[g.draw(0, len(bytes)-1, "itarr")]
+	two := len(bytes) > 1 && g.chance(35, "ittwo")
+	a1 := bytes[g.draw(0, len(bytes)-1, "itarr2")]
+	if a1.name == a0.name {
+		two = false
+	}
+	window := func(ar array) string {
+		if g.chance(60, "itwhole") {
+			return ar.name + "[..]"
+		}
+		lo := g.draw(0, ar.n, "itlo")
+		hi := g.draw(lo, ar.n, "ithi")
+		return fmt.Sprintf("%s[%d .. %d]", ar.name, lo, hi)
+	}
+	length := []int{1, 2, 3, 4, 8}[g.draw(0, 4, "itlen")]
+	advance := length
+	if g.chance(35, "itadv") {
+		advance = g.draw(1, length, "itadvn")
+	}
+	unroll := []int{1, 1, 2, 4}[g.draw(0, 3, "itunroll")]
+	head := "s0 = " + window(a0)
+	if two {
+		head += ", s1 = " + window(a1)
+	}
+	saved := g.locals
+	// the body is checked without the enclosing facts: loop indexes lose what an enclosing loop knew
+	cp := append([]variable{}, g.locals...)
+	for i := range cp {
+		if g.loopVars[cp[i].name] {
+			cp[i].max = typeMax(cp[i].width)
+		}
+	}
+	g.locals = cp
+	g.inIter = true
+	body := func(length int) {
+		g.depth++
+		n := g.draw(1, 3, "itbody")
+		for i := 0; i < n; i++ {
+			k := g.draw(0, length-1, "itk")
+			as := g.assignable()
+			switch kind := g.draw(0, 5, "itstmt"); {
+			case kind <= 1 && len(as) > 0: // read an element
+				v := as[g.draw(0, len(as)-1, "itlhs")]
+				src := "s0"
+				if two && g.chance(50, "its1") {
+					src = "s1"
+				}
+				elem := fmt.Sprintf("%s[%d]", src, k)
+				if v.width != 8 {
+					elem = fmt.Sprintf("(%s as %s)", elem, typeName(v.width))
+				}
+				if v.max.Cmp(typeMax(8)) < 0 {
+					g.line("%s = (%s & %s)", v.name, elem, hex(maskFor(v.max)))
+				} else if g.chance(50, "itacc") && v.max.Cmp(typeMax(v.width)) == 0 && !g.o.Exclude["K5-self-assign-fact"] {
+					g.line("%s ~mod+= %s", v.name, elem)
+				} else {
+					g.line("%s = %s", v.name, elem)
+				}
+			case kind <= 3: // write an element
+				e, _ := g.expr(8, typeMax(8), 2)
+				if two && g.chance(50, "itmix") {
+					e = fmt.Sprintf("(s1[%d] ~mod+ %s)", g.draw(0, length-1, "itk2"), e)
+				}
+				g.line("s0[%d] = %s", k, e)
+			default:
+				g.stmt(0)
+			}
+		}
+		g.depth--
+	}
+	g.line("iterate (%s)(length: %d, advance: %d, unroll: %d) {", head, length, advance, unroll)
+	body(length)
+	if length > 1 && g.chance(60, "itelse") {
+		l2 := g.draw(1, length-1, "itlen2")
+		g.line("} else (length: %d, advance: %d, unroll: 1) {", l2, g.draw(1, l2, "itadv2"))
+		body(l2)
+	}
+	g.line("}")
+	g.inIter = false
+	g.locals = saved
 }
 
 // indexedWhile emits "while arr[x] <> k { x = (x ~mod+ 1) & M }": with the
@@ -1014,6 +1117,10 @@ func (g *gen) startFunc(impure, coro bool, args []variable) {
 	} else if impure {
 		g.line("var r : base.io_reader")
 	}
+	if impure && !coro { // the parser rejects iterate inside coroutines
+		g.line("var s0 : slice base.u8")
+		g.line("var s1 : slice base.u8")
+	}
 	g.retZero = ""
 }
 
@@ -1194,6 +1301,25 @@ func Gen(t *rapid.T, pkg string, o *Options) Prog {
 	g.depth--
 	g.line("}")
 	fmt.Fprintf(w, "}\n")
+	// sometimes a second public coroutine, so that call histories can interleave two of them
+	if g.chance(40, "second-coroutine") {
+		fmt.Fprintf(w, "\npub func foo.drain?(dst: base.io_writer, src: base.io_reader) {\n")
+		g.startFunc(true, true, nil)
+		g.hasDst = true
+		g.line("while true {")
+		g.depth++
+		g.line("c8 = args.src.read_u8?()")
+		g.line("if c8 == 0 {")
+		g.line("    return ok")
+		g.line("} else if c8 == 0xFE {")
+		g.line("    return \"#bad\"")
+		g.line("}")
+		g.ioStmt()
+		g.line("args.dst.write_u8?(a: c8)")
+		g.depth--
+		g.line("}")
+		fmt.Fprintf(w, "}\n")
+	}
 	return Prog{Pkg: pkg, Src: g.b.String()}
 }
 
